@@ -133,6 +133,7 @@ def observe_chart(chart: Any, *, ordered: bool = True) -> dict[str, Any]:
         "globals": observe_globals(chart.global_events_track),
         "tracks": tracks,
     }
+    obs["shape"] = shape(chart) if ordered else None
     if ordered:
         obs["keys"] = keys
         obs["str"] = scrub(str(chart))
@@ -140,6 +141,45 @@ def observe_chart(chart: Any, *, ordered: bool = True) -> dict[str, Any]:
     else:
         obs["keys_sorted"] = sorted([k, sorted(v)] for k, v in keys if v)
     return obs
+
+
+def hashes(chart: Any) -> list[Any]:
+    """hash() of every event (``"unhashable"`` where hashing raises TypeError).  Only ever compared
+    between objects of ONE process: equal events must hash equally."""
+    out: list[Any] = []
+    for _k, e in all_events(chart):
+        try:
+            out.append(hash(e))
+        except TypeError:
+            out.append("unhashable")
+    return out
+
+
+def _tname(x: Any) -> str:
+    t = type(x)
+    return f"{t.__module__}.{t.__qualname__}"
+
+
+def shape(chart: Any) -> list[Any]:
+    """Classes of the chart's containers and events (state can hide in the class of an object)."""
+    out: list[Any] = [_tname(chart), _tname(chart.instrument_tracks), _tname(chart.metadata),
+                      _tname(chart.sync_track), _tname(chart.sync_track.bpm_events),
+                      _tname(chart.sync_track.bpm_events.events),
+                      _tname(chart.sync_track.time_signature_events),
+                      _tname(chart.sync_track.anchor_events), _tname(chart.global_events_track),
+                      _tname(chart.global_events_track.text_events),
+                      _tname(chart.global_events_track.section_events),
+                      _tname(chart.global_events_track.lyric_events)]
+    for _inst, dd in chart.instrument_tracks.items():
+        out.append(_tname(dd))
+        for _d, tr in dd.items():
+            out += [_tname(tr), _tname(tr.note_events), _tname(tr.star_power_events),
+                    _tname(tr.track_events)]
+            for e in tr.note_events:
+                out.append([_tname(e), _tname(e.note), _tname(e.hopo_state), _tname(e.sustain),
+                            _tname(e.star_power_data), _tname(e.timestamp), _tname(e.tick)])
+    out.append(sorted({_tname(e) for _k, e in all_events(chart)}))
+    return out
 
 
 def chart_digest(chart: Any, *, ordered: bool = True) -> str:
